@@ -155,7 +155,10 @@ def string_cases(tier, seed, want, tag, sizing=False, hostile=False,
     import itertools as _it
     heads = [('\\foo', ''), ('\\foo{a}', ''), ('\\foo[a]', ''), ('\\foo[a]{b}', ''),
              ('\\begin{itemize}\\item', '\\end{itemize}'), ('\\begin{a}', '\\end{a}'),
-             ('$\\alpha', '$'), ('{\\bf', '}')]
+             ('$\\alpha', '$'), ('{\\bf', '}'),
+             # constructs after whose closer nothing may attach
+             ('\\begin{a}x\\end{a}', ''), ('\\begin{verbatim}x\\end{verbatim}', ''),
+             ('\\[x\\]', ''), ('{g}', '')]
     atoms = [' ', '\n', '\t', '%c\n', '%\n', '\r\n']
     tails = ['[x]', '{x}', '[x', 'y', '\\bar', '']
     for n in range(0, 4):
@@ -166,6 +169,20 @@ def string_cases(tier, seed, want, tag, sizing=False, hostile=False,
                     m = h0 + ''.join(seq) + t + h1
                     if ok(m):
                         yield k, {'s': m, 'w': 'sep-grid'}
+    # one arbitrary code point (every one below U+0300, the notable ones and
+    # a seeded sample of the rest) inside three small documents
+    cps = list(range(1, 0x300)) + [0x2028, 0x2029, 0x3000, 0xFEFF, 0xFFFD, 0xFFFF, 0x1F600,
+                                    0xE000, 0x10FFFF, 0xD7FF, 0xFF5B, 0xFF3C, 0x200B]
+    rcp = _r.Random('%d/%s/cp' % (seed, tag))
+    cps += [rcp.randrange(0x300, 0x110000) for _ in range(200 if q else 20000)]
+    for cp in cps:
+        if 0xD800 <= cp <= 0xDFFF:
+            continue
+        c = chr(cp)
+        for t in ('ab' + c + 'cd', '\\foo{a} ' + c + ' \\bar[' + c + ']', '$x$' + c + '{' + c + '}'):
+            k += 1
+            if want(k) and ok(t):
+                yield k, {'s': t, 'w': 'codepoint'}
     for origin, src in corpus.documents():
         k += 1
         if want(k) and ok(src):
